@@ -142,6 +142,31 @@ pub fn enumerate(field_idx: usize, thorough: bool) -> Vec<AmtCase> {
                 out.push(mk(ccy, format!("00{int},{frac}"), "leading-zeros"));
             }
         }
+        // length boundary: total length (digits + separator) at max-1, max, max+1, max+2 with few
+        // integer digits, so that the value stays inside any plausibility range of the field
+        if !wc {
+            for ni in [1usize, 2, 3, 5, 6] {
+                for l in [ml - 1, ml, ml + 1, ml + 2] {
+                    if l < ni + 1 {
+                        continue;
+                    }
+                    let nf = l - ni - 1;
+                    let int = digits_of(ni, l);
+                    let frac = digits_of(nf, ni + 1);
+                    let d = l as isize - ml as isize;
+                    out.push(mk(ccy, format!("{int},{frac}"), &format!("length-max{d:+}")));
+                    // the same length reached with leading zeros
+                    if ni > 1 {
+                        let z = "0".repeat(ni - 1);
+                        out.push(mk(
+                            ccy,
+                            format!("{z}{},{frac}", digits_of(1, l)),
+                            &format!("length-max{d:+}-leading-zeros"),
+                        ));
+                    }
+                }
+            }
+        }
         for (name, a) in NON_DECIMAL {
             out.push(mk(ccy, a.to_string(), name));
         }
@@ -339,7 +364,7 @@ pub fn oracle(c: &AmtCase, obs: &mut Obs) -> Vec<Violation> {
 }
 
 pub fn run(ctx: &Ctx) {
-    ctx.add_rule("enumerated grid: 20 amount/rate-bearing field types x ISO-4217 currencies (quick: 4-6 per minor-unit class 0/2/3/4; thorough: all) x 0..5 decimals x integer digits {1,2,7,10,12,13,14,15} x spellings {comma, dot, no separator, no integer part, trailing zero, leading zeros} plus 21 non-decimal spellings a float parser would take; non-trivial = all; distinct by (field, content)");
+    ctx.add_rule("enumerated grid: 20 amount/rate-bearing field types x ISO-4217 currencies (quick: 4-6 per minor-unit class 0/2/3/4; thorough: all) x 0..5 decimals x integer digits {1,2,7,10,12,13,14,15} x spellings {comma, dot, no separator, no integer part, trailing zero, leading zeros}; for the currency-less fields (19, 36, 37H, 61) total lengths max-1 .. max+2 with 1-6 integer digits, with and without leading zeros; plus 21 non-decimal spellings a float parser would take; non-trivial = all; distinct by (field, content)");
     ctx.exhaustive("the grid is enumerated completely");
     ctx.assume("ISO-4217 minor-unit table in harness/src/refs.rs; amounts with more than 15 significant digits are a separate class (an f64 cannot hold them)");
     let thorough = !ctx.quick();
